@@ -95,14 +95,17 @@ Definition clampz (lo hi v : Z) : Z := Z.max lo (Z.min hi v).
 Definition nth_z {A} (l : list A) (i : Z) (d : A) : A := nth (Z.to_nat i) l d.
 
 (* the weights of one core as a flat OHWI volume over that core's channels *)
-Definition core_weights (x : xcfg) (r : regs) (depthwise : bool) (nch ifm_d : Z) (stream : list Z)
+(* core k of an n-core NPU traverses its channels k, k + n, ... in OFM blocks of its share of the programmed block depth *)
+Definition core_block_depth (ncores k blk : Z) : Z := (blk + ncores - 1 - k) / ncores.
+
+Definition core_weights (x : xcfg) (r : regs) (depthwise : bool) (k nch ifm_d : Z) (stream : list Z)
   : option (list Z) :=
   match decode false stream with
   | DOk ws =>
       let c := {| ofm_depth := nch; kernel_h := kern_h r; kernel_w := kern_w r;
                   ifm_depth := if depthwise then 1 else ifm_d;
                   ofm_ublock := x_ofm_ublock x; ifm_ublock := x_ifm_ublock x;
-                  ofm_block := r0 r cmd0_NPU_SET_OFM_BLK_DEPTH_M1 + 1;
+                  ofm_block := core_block_depth (x_ncores x) k (r0 r cmd0_NPU_SET_OFM_BLK_DEPTH_M1 + 1);
                   is_dw := depthwise; is_pk := part_kernel r;
                   bitdepth := 8 * prec_elem_ifm (r0 r cmd0_NPU_SET_IFM_PRECISION);
                   decomp_h := 8 / dil_y r; decomp_w := 8 / dil_x r |} in
@@ -141,7 +144,7 @@ Definition load_weights (x : xcfg) (m : mem) (r : regs) (depthwise : bool) (ofm_
   let one (k base len sbase slen : Z) : option (list Z * list (Z * Z * Z)) :=
       let nch := core_channels (x_ncores x) k ofm_d in
       if nch <=? 0 then Some ([], []) else
-      match core_weights x r depthwise nch ifm_d (rd_bytes wb base (Z.to_nat len)) with
+      match core_weights x r depthwise k nch ifm_d (rd_bytes wb base (Z.to_nat len)) with
       | Some w => Some (w, scale_records (rd_bytes sb sbase (Z.to_nat slen)) (Z.to_nat nch))
       | None => None
       end in
@@ -176,8 +179,15 @@ Definition ifm_at (up : Z) (b : bank) (iv : fmview) (signed : bool) (zp : Z) (y 
 
 Definition sumz (l : list Z) : Z := fold_left Z.add l 0.
 
+(* a list as a finite map from its indices (the interpreter looks weights up once per multiply) *)
+Fixpoint pm_fill {A} (l : list A) (i : Z) (m : PositiveMap.t A) : PositiveMap.t A :=
+  match l with [] => m | v :: t => pm_fill t (i + 1) (PositiveMap.add (key i) v m) end.
+Definition pm_of_list {A} (l : list A) : PositiveMap.t A := pm_fill l 0 (PositiveMap.empty A).
+Definition pm_get {A} (m : PositiveMap.t A) (i : Z) (d : A) : A :=
+  match PositiveMap.find (key i) m with Some v => v | None => d end.
+
 Definition conv_acc (b : bank) (iv : fmview) (r : regs) (signed : bool) (zp : Z) (depthwise : bool)
-           (w : list Z) (oy ox ch lc ifm_d : Z) : Z :=
+           (w : PositiveMap.t Z) (oy ox ch lc ifm_d : Z) : Z :=
   (* lc = index of the channel inside its core's volume *)
   let s := r0 r cmd0_NPU_SET_KERNEL_STRIDE in
   let kh := kern_h r in let kw := kern_w r in
@@ -187,7 +197,7 @@ Definition conv_acc (b : bank) (iv : fmview) (r : regs) (signed : bool) (zp : Z)
   sumz (flat_map (fun ky => flat_map (fun kx =>
           map (fun ic =>
                  ifm_at (r0 r cmd0_NPU_SET_IFM_UPSCALE) b iv signed zp (y0 + ky * dil_y r) (x0 + kx * dil_x r) (if depthwise then ch else ic)
-                 * nth_z w (((lc * kh + ky) * kw + kx) * idp + ic) 0)
+                 * pm_get w (((lc * kh + ky) * kw + kx) * idp + ic) 0)
               (zrange idp)) (zrange kw)) (zrange kh)).
 
 Definition finish (r : regs) (acc bias scale shift : Z) : Z :=
@@ -227,11 +237,13 @@ Definition exec_conv (x : xcfg) (m : mem) (code : Z) (r : regs) : option mem :=
       let sg := ifm_signed r in
       let zp := s16 (r0 r cmd0_NPU_SET_IFM_ZERO_POINT) in
       let nc := x_ncores x in
+      let wms := map pm_of_list (wp_w wp) in
+      let sms := map pm_of_list (wp_s wp) in
       Some (write_ofm m ov
         (map (fun p => let '(y, xx, c) := p in
                 let k := c mod nc in let lc := c / nc in
-                let w := nth_z (wp_w wp) k [] in
-                let '(bias, sc, sh) := nth_z (nth_z (wp_s wp) k []) lc (0, 0, 0) in
+                let w := nth_z wms k (PositiveMap.empty Z) in
+                let '(bias, sc, sh) := pm_get (nth_z sms k (PositiveMap.empty (Z * Z * Z))) lc (0, 0, 0) in
                 (y, xx, c, activate x m r (finish r (conv_acc b iv r sg zp depthwise w y xx c lc (fv_d iv)) bias sc sh)))
              (positions ov)))
   end.
